@@ -499,8 +499,7 @@ impl GroupAggregator {
 
                 *count += 1;
 
-                let calculate = |sum: f64, sum_square: f64, n: f64| {
-                    let variance = (sum_square - (sum * sum) / n) / n;
+                let finish = |variance: f64| {
                     if *is_variance {
                         variance
                     } else {
@@ -510,10 +509,17 @@ impl GroupAggregator {
 
                 let value = match (sum, sum_square) {
                     (Value::Int(sum), Value::Int(sum_square)) => {
-                        Some(Value::Float(Float(calculate(*sum as f64, *sum_square as f64, *count as f64))))
+                        // n * sum_square - sum * sum is formed exactly (it fits 128 bits), so nothing cancels
+                        // between rounded terms and the variance of integers is never negative
+                        let n = *count as i128;
+                        let numerator = n * (*sum_square as i128) - (*sum as i128) * (*sum as i128);
+                        Some(Value::Float(Float(finish(numerator as f64 / (n * n) as f64))))
                     }
                     (Value::Float(sum), Value::Float(sum_square)) => {
-                        Some(Value::Float(Float(calculate(sum.0, sum_square.0, *count as f64))))
+                        let n = *count as f64;
+                        let variance = (sum_square.0 - (sum.0 * sum.0) / n) / n;
+                        // the subtraction can cancel down to a rounding error below zero; a variance is not negative
+                        Some(Value::Float(Float(finish(if variance < 0.0 { 0.0 } else { variance }))))
                     }
                     _ => None
                 };
